@@ -255,12 +255,14 @@ def _work(ctx: Ctx, item):
                 return [(f"C06|built-roundtrip-none|{fmt}", f"a message of legal values came back as {'nothing' if back is None else back.id}", case)]
             out = []
             for f, a, g in zip(d.fields, fields, back.fields):
+                if a["expect"][0] == "raw" and f.type == "LOOKUP" and g.raw_value != a["expect"][1]:
+                    out.append((f"C06|built-lookup|{fmt}|{d.key}/{f.id}", f"{f.id}: sent {a['value']!r} / {a['raw_value']!r} (code {a['expect'][1]}), received {g.value!r} / {g.raw_value!r}", case))
                 if a["expect"][0] == "num" and a.get("target") is not None and f.type in ("NUMBER", "PGN", "DURATION") and not a.get("tol"):
                     if g.value is None or abs(Fraction(g.value) - a["target"]) > f.res / 2 * (1 + Fraction(1, 10 ** 6)) + abs(a["target"]) * Fraction(1, 10 ** 12):
                         out.append((f"C06|built-roundtrip-value|{fmt}|{d.key}/{f.id}", f"{f.id}: sent {float(a['target'])!r}, received {g.value!r}", case))
             return out
         if d.encodable:
-            ctx.hyp(built, c09.assignment(d), st.sampled_from(FORMATS), max_examples=max(6, n // 2), name="built", shrink=False, rounds=2)
+            ctx.hyp(built, c09.assignment(d), st.sampled_from(FORMATS), max_examples=max(24, n), name="built", shrink=False, rounds=2)
         # the benign message in every format (deterministic floor)
         bp, bn, _ = gen.benign_payload(d)
         for fmt in FORMATS:
@@ -343,12 +345,46 @@ def _streams(ctx: Ctx, item):
     ctx.hyp(one, msgs(), st.sampled_from(["ebyte", "usb", "yd"]), max_examples=n, name="streams")
 
 
+def _lookup_names(ctx: Ctx, keys):
+    """Every lookup field given by each of its names, through every format and back: the same name / code is received."""
+    from . import c09
+    from nmea2000.encoder import NMEA2000Encoder
+    db = canboat.db()
+    n = 0
+    for key in keys:
+        d = db.by_key[key]
+        for k, (f, name, code, m) in enumerate(c09.lookup_name_messages(d)):
+            fmt = FORMATS[k % len(FORMATS)]
+            try:
+                pks = encode(NMEA2000Encoder(), fmt, m)
+            except ValueError:
+                continue
+            ctx.count()
+            n += 1
+            case = {"lookup_name": key, "field": f.id, "name": name, "format": fmt}
+            try:
+                back = decode_packets(fmt, pks, ("A000001.000", "00:00:01.000"))
+            except Exception as e:
+                ctx.report(f"C06|lookup-by-name|{fmt}|roundtrip-error", f"{key}.{f.id} = {name!r}: {type(e).__name__}: {e}", case)
+                continue
+            g = next((x for x in back.fields if x.id == f.id), None) if back is not None and back.id == d.id else None
+            if back is not None and back.id != d.id:
+                continue                    # the name's code makes the payload another definition's (match values): not this check's business
+            if g is None or g.raw_value != code:
+                ctx.report(f"C06|lookup-by-name|{fmt}|{key}/{f.id}", f"{f.id} sent as {name!r} (code {code} in table {f.lookup}): received {getattr(g, 'value', None)!r} / "
+                           f"{getattr(g, 'raw_value', None)!r}", case)
+    ctx.nontrivial_extra += n
+    ctx.klass("lookup_fields_by_every_name", n)
+
+
 def _dual(ctx: Ctx, item):
     from .. import clientopts as co
     co.dual_pass(ctx, "C06", item[0])
 
 
 def run(ctx: Ctx):
+    _enc = [d.key for d in canboat.db().defs if d.encodable]
+    pmap(ctx, _lookup_names, [_enc[i::16] for i in range(16)])
     pmap(ctx, _dual, [("waveshare",)])
     db = canboat.db()
     enc = [d.key for d in db.defs if d.encodable]
@@ -361,6 +397,11 @@ def run(ctx: Ctx):
 
 
 def replay(ctx: Ctx, case):
+    if "lookup_name" in case:
+        sub = Ctx(ctx.pid)
+        sub.known_open = {}
+        _lookup_names(sub, [case["lookup_name"]])
+        return [(b, v["what"], v["case"]) for b, v in sub.found.items() if v["case"].get("field") == case.get("field") and v["case"].get("name") == case.get("name")]
     if case.get("dual"):
         from .. import clientopts as co
         return co.dual_replay("C06", "C06", case)
